@@ -25,6 +25,7 @@ import (
 	"sync/atomic"
 	"testing/synctest"
 	"time"
+	"unsafe"
 )
 
 const (
@@ -53,6 +54,10 @@ type G struct {
 	steps   int
 	prio    int
 	woke    bool
+	doneTok int32
+	tok     int32
+	// Local is private storage for harness code running on this goroutine.
+	Local any
 }
 
 func (g *G) String() string { return fmt.Sprintf("g%d(%s)", g.ID, g.Site) }
@@ -231,6 +236,7 @@ func Cur() *G { return cur() }
 func (s *Sched) park(g *G, site string, w Waiter) {
 	g.where = site
 	g.wait = w
+	RaceReleaseMerge(unsafe.Pointer(&g.tok))
 	atomic.StoreInt32(&g.state, gParked)
 	raceDisable()
 	select {
@@ -310,8 +316,11 @@ func Go(site string, f func()) {
 }
 
 //go:norace
-func (s *Sched) spawn(site string, app bool, f func()) *G {
+func (s *Sched) spawn(site string, app bool, f func(), pre ...func(*G)) *G {
 	g := s.newG(site, app)
+	for _, p := range pre {
+		p(g)
+	}
 	go func() {
 		raceDisable()
 		<-g.release
@@ -336,6 +345,8 @@ func (s *Sched) exit(g *G) {
 	if S == s && s.cur == g {
 		s.cur = nil
 	}
+	RaceReleaseMerge(unsafe.Pointer(&g.doneTok))
+	RaceReleaseMerge(unsafe.Pointer(&g.tok))
 	atomic.StoreInt32(&g.state, gDone)
 }
 
@@ -358,10 +369,9 @@ func trimStack(st string) string {
 // and from sim goroutines.
 //
 //go:norace
-func (s *Sched) GoApp(name string, f func()) *G {
-	g := s.spawn("app:"+name, true, f)
-	g.Name = name
-	return g
+func (s *Sched) GoApp(name string, f func(), pre ...func(*G)) *G {
+	pre = append(pre, func(g *G) { g.Name = name })
+	return s.spawn("app:"+name, true, f, pre...)
 }
 
 // Sleep blocks the calling sim goroutine for d of simulated time.
@@ -613,3 +623,24 @@ func (s *Sched) Kill() {
 
 // LibRand is the PRNG behind the math/rand shim.
 func (s *Sched) LibRand() *rand.Rand { return s.lib }
+
+// Joined gives the caller a happens-before edge from the end of each finished
+// goroutine (what a WaitGroup.Wait would give); harness joins only.
+//
+//go:norace
+func Joined(gs ...*G) {
+	for _, g := range gs {
+		RaceAcquire(unsafe.Pointer(&g.doneTok))
+	}
+}
+
+// AcquireAll gives the root a happens-before edge from everything the sim
+// goroutines did up to their last park (inbound edges only: the root never
+// releases to them, so this hides nothing).
+//
+//go:norace
+func (s *Sched) AcquireAll() {
+	for _, g := range s.gs {
+		RaceAcquire(unsafe.Pointer(&g.tok))
+	}
+}
